@@ -70,7 +70,8 @@ def si_term(g):
     cs = ops.as_int_term(g["CODESTATE"])
     return z3.And(
         z3.Implies(cs == 2, z3.ForAll([k], z3.Implies(z3.Select(has, k), z3.Select(val, k) == Eval(g["DISKSRC"].term, k)))),
-        z3.Implies(cs != 2, z3.ForAll([k], z3.Not(z3.Select(has, k)))),
+        # results WITHOUT a complete code file may exist (another user of the directory cleared it while this process kept storing, a kill
+        # inside Memory.clear, a failed code write): nothing is known about them - they must be wiped before anything is served from disk
         cs >= 0, cs <= 2,
     )
 
@@ -94,9 +95,22 @@ def build():
 
     p.spec_funcs["SI"] = lambda interp: ops.mk_bool(si_term(interp.ctx.ghost))
 
+    def entries_current(interp):
+        g = interp.ctx.ghost
+        k = z3.Const("k!ec", Key.sort())
+        return ops.mk_bool(z3.ForAll([k], z3.Implies(z3.Select(g["HAS"].term, k), z3.Select(g["VAL"].term, k) == Eval(g["CURSRC"].term, k))))
+
+    p.spec_funcs["entries_current"] = entries_current
+
     def TI(interp):
         g = interp.ctx.ghost
-        return ops.mk_bool(z3.Implies(_b(ops.truth(g["TABLE_HIT"])), z3.And(ops.as_int_term(g["CODESTATE"]) == 2, g["DISKSRC"].term == g["CURSRC"].term)))
+        k = z3.Const("k!ti", Key.sort())
+        cs = ops.as_int_term(g["CODESTATE"])
+        # a hit in the in-process table: every entry on disk was computed by the current code (by this process, or found under the current
+        # code when the table entry was made); the code file may have been deleted by another user since, never replaced by other code
+        return ops.mk_bool(z3.Implies(_b(ops.truth(g["TABLE_HIT"])), z3.And(
+            z3.ForAll([k], z3.Implies(z3.Select(g["HAS"].term, k), z3.Select(g["VAL"].term, k) == Eval(g["CURSRC"].term, k))),
+            z3.Implies(cs == 2, g["DISKSRC"].term == g["CURSRC"].term))))
 
     p.spec_funcs["TI"] = TI
     p.spec_funcs["sel"] = lambda interp, arr, k: (ops.mk_bool(z3.Select(arr.term, k.term)) if arr.kind is HASK else Sym(Val, z3.Select(arr.term, k.term)))
@@ -216,6 +230,9 @@ def build():
         cs = ops.as_int_term(g["CODESTATE"])
         if ctx.branch(cs == 0, "code:absent"):
             interp.raise_("FileNotFoundError")
+        if ctx.branch(cs == 1, "code:torn") and ctx.choose(2, "torn-inside-a-multibyte-character") == 1:
+            # the file is read as UTF-8 text: a prefix cut inside a multi-byte character does not decode
+            interp.raise_("UnicodeDecodeError")
         return Opaque("codetext", None)
 
     def m_store_code(interp, recv, args, kwargs):
@@ -262,9 +279,24 @@ def build():
         "get_func_name": lambda interp: _Fn(lambda i, a, k: (PyList([]), STR.fresh(i.ctx, "fname"))),
         "format_signature": lambda interp: _Fn(lambda i, a, k: (STR.fresh(i.ctx, "path"), STR.fresh(i.ctx, "sig"))),
         "format_call": lambda interp: _Fn(lambda i, a, k: STR.fresh(i.ctx, "call")),
-        "filter_args": lambda interp: _Fn(lambda i, a, k: PyDict({})),
+        "filter_args": lambda interp: _Fn(lambda i, a, k: PyDict({"x": Opaque("userarg", None)})),
         "_FUNCTION_HASHES": lambda interp: Opaque("fhashes", None),
     }
+
+    # repr() of a user's argument runs the user's __repr__: it may raise anything
+    orig_repr = p.models.get("builtin:repr")
+
+    def m_repr(interp, args, kwargs):
+        if isinstance(args[0], Opaque) and args[0].tag == "userarg":
+            if interp.ctx.choose(2, "user-__repr__-raises") == 1:
+                interp.raise_("RuntimeError")
+            return STR.fresh(interp.ctx, "repr")
+        if orig_repr is None:
+            raise Unsupported("repr()")
+        return orig_repr(interp, args, kwargs)
+
+    p.models["builtin:repr"] = m_repr
+    p.models["object.__repr__"] = lambda i, a, k: STR.fresh(i.ctx, "objrepr")  # the default repr of object never raises
 
     def fh_contains(interp, container, item):
         g = interp.ctx.ghost
@@ -408,7 +440,9 @@ def build():
         returns=BOOL,
         ensures={
             "SI": "SI()", "TI": "TI()",
-            "true_means_same_code": "implies(result, CODESTATE == 2 and DISKSRC is CURSRC and (HAS == old(HAS) and VAL == old(VAL)))",
+            # True: whatever is stored was computed by the current code (the code file may have been deleted by another user of the directory
+            # since the in-process table entry was made - never replaced by other code), and nothing was touched
+            "true_means_every_stored_result_is_of_the_current_code": "implies(result, entries_current() and implies(CODESTATE == 2, DISKSRC is CURSRC) and (HAS == old(HAS) and VAL == old(VAL)))",
             "false_means_wiped_and_current": "implies(not result, no_entries() and CODESTATE == 2 and DISKSRC is CURSRC)",
             "unchanged_code_keeps_its_cache": "implies(old(CODESTATE) == 2 and old(DISKSRC) is CURSRC, result and (HAS == old(HAS) and VAL == old(VAL)))",
             "changed_code_is_detected": "implies(old(CODESTATE) == 2 and not (old(DISKSRC) is CURSRC), not result)",
@@ -430,8 +464,9 @@ def build():
         returns=BOOL,
         ensures={
             "SI": "SI()", "TI": "TI()",
-            "true_means_valid_entry": "implies(result, has(KEY) and CODESTATE == 2 and DISKSRC is CURSRC and val(KEY) is ev(CURSRC, KEY))",
-            "false_means_no_entry_for_key_or_wiped": "implies(not result, CODESTATE == 2 and DISKSRC is CURSRC)",
+            "true_means_valid_entry": "implies(result, has(KEY) and val(KEY) is ev(CURSRC, KEY))",
+            "false_means_no_entry_for_key_or_wiped": "implies(not result, entries_current())",
+            "every_stored_result_is_of_the_current_code": "entries_current() and implies(CODESTATE == 2, DISKSRC is CURSRC)",
             "hit_without_callback": "implies(self.cache_validation_callback is None and old(CODESTATE) == 2 and old(DISKSRC) is CURSRC and sel(old(HAS), KEY), result)",
             "other_entries_survive_when_code_unchanged": "implies(old(CODESTATE) == 2 and old(DISKSRC) is CURSRC, only_key_changed(old(HAS), old(VAL), KEY))",
             "no_execution": "EXECS == old(EXECS)",
@@ -446,7 +481,7 @@ def build():
         requires=PRE,
         ensures={
             "same_answer_as_the_call_path": "result == ret__is_in_cache_and_valid",
-            "true_means_next_call_is_a_hit": "implies(result, has(KEY) and CODESTATE == 2 and DISKSRC is CURSRC and val(KEY) is ev(CURSRC, KEY))",
+            "true_means_next_call_is_a_hit": "implies(result, has(KEY) and val(KEY) is ev(CURSRC, KEY))",
             "no_execution": "EXECS == old(EXECS)",
         },
     ))
@@ -455,9 +490,9 @@ def build():
     p.models["new:MemorizedResult"] = lambda i, a, k: Opaque("memorized_result", None, call_id=a[1], store=a[0])
     call_c = Contract(
         MEM, "MemorizedFunc._call", props=["C02", "C06", "C05"], ghost=GHOST, globals=glob, setup=setup,
-        inline={"_before_call", "_after_call", "_persist_input", "_get_memorized_result", "_load_item"},
+        inline={"_before_call", "_after_call", "_persist_input", "_get_memorized_result", "_load_item", "_safe_repr"},
         params=dict(self=mfunc(), call_id=callid, args=(), kwargs=PyDict({}), shelving=OneOf(False, True)),
-        requires=PRE + ["CODESTATE == 2 and DISKSRC is CURSRC"],
+        requires=PRE + ["entries_current()", "implies(CODESTATE == 2, DISKSRC is CURSRC)"],
         modifies=["ghost:HAS", "ghost:VAL", "ghost:EXECS"],
         returns=lambda interp, env: (Val.fresh(interp.ctx, "out") if env.lookup("shelving") is False else Opaque("memorized_result", None, call_id=env.lookup("call_id")), PyDict({})),
         ensures={
@@ -499,7 +534,7 @@ def build():
             # C06: a valid entry is served without running the function (unless the load itself fails: then exactly one recomputation)
             "hit_runs_nothing_or_recomputes_once": "EXECS == old(EXECS) or EXECS == old(EXECS) + 1",
             "miss_runs_once": "implies(not sel(old(HAS), KEY), EXECS == old(EXECS) + 1)",
-            "code_on_disk_is_current": "CODESTATE == 2 and DISKSRC is CURSRC",
+            "every_stored_result_is_of_the_current_code": "entries_current() and implies(CODESTATE == 2, DISKSRC is CURSRC)",
         },
         # C05 / C14: NO exception escapes, from every store state satisfying SI (torn or absent code file, missing metadata, failing loads)
     )
@@ -522,7 +557,7 @@ def build():
         requires=PRE,
         modifies=["ghost:CODESTATE", "ghost:DISKSRC", "ghost:DISKLINE", "ghost:TABLE_HIT", "ghost:HAS", "ghost:VAL", "ghost:EXECS"],
         ensures={"SI": "SI()", "TI": "TI()", "executes_once": "EXECS == old(EXECS) + 1", "returns_the_functions_value": "result[0] is ev(CURSRC, KEY)",
-                 "code_on_disk_is_current": "CODESTATE == 2 and DISKSRC is CURSRC"},
+                 "every_stored_result_is_of_the_current_code": "entries_current() and implies(CODESTATE == 2, DISKSRC is CURSRC)"},
     ))
 
     # ------------------------------------------------------------------ MemorizedResult.get
@@ -558,22 +593,30 @@ def build():
     def fci_self(interp):
         ctx = interp.ctx
         g = ctx.ghost
+        cur = Opaque("code", None)              # the code object the function has now
+        other = Opaque("code", None)            # some other code object (possibly collected meanwhile: nothing is assumed about ids)
+        g["CURCODE"] = cur
         have = ctx.choose(2, "cached-info-present")
-        o = mfunc(func=OpaqueOf("userfunc", __name__=STR, __code__=OpaqueOf("code")), _func_code_id=Opt(INT),
-                  _func_code_info=None).fresh(ctx, "self")
+        which = ctx.choose(3, "recorded-code-object")   # none / the current one / another one
+        o = mfunc(func=Opaque("userfunc", None, __name__=STR.fresh(ctx, "fname"), __code__=cur), _func_code_id=None, _func_code_info=None).fresh(ctx, "self")
+        o.fields["_func_code_id"] = (None, cur, other)[which]
+        g["INFO_FOR"] = o.fields["_func_code_id"]
         if have:
             o.fields["_func_code_info"] = (g["CACHEDSRC"], None, g["CURLINE"])
         return o
 
-    p.spec_funcs["info_for_now"] = lambda interp: interp.ctx.ghost["CODEID"] if any(e[0] == "get_func_code" for e in interp.ctx.events) else interp.ctx.ghost["INFO_FOR"]
+    p.spec_funcs["recorded_is_current"] = lambda interp, me: me.fields["_func_code_id"] is interp.ctx.ghost["CURCODE"]
+    p.spec_funcs["info_was_for_current"] = lambda interp: interp.ctx.ghost["INFO_FOR"] is interp.ctx.ghost["CURCODE"]
     p.add(Contract(
-        MEM, "MemorizedFunc.func_code_info", props=["C12"], ghost=dict(CURSRC=Src, CURLINE=INT, CACHEDSRC=Src, INFO_FOR=INT), globals=fglob, setup=fci_setup,
+        MEM, "MemorizedFunc.func_code_info", props=["C12"], ghost=dict(CURSRC=Src, CURLINE=INT, CACHEDSRC=Src), globals=fglob,
         params=dict(self=fci_self),
-        requires=["self._func_code_info is None or (self._func_code_id is not None and self._func_code_id == INFO_FOR)",
-                  "implies(INFO_FOR == CODEID, CACHEDSRC is CURSRC)"],
+        # representation invariant: a cached source, when present, is the source of the code OBJECT recorded next to it (a reference: the
+        # object cannot be collected and its identity re-used while it is recorded)
+        requires=["self._func_code_info is None or self._func_code_id is not None",
+                  "implies(info_was_for_current() and self._func_code_info is not None, CACHEDSRC is CURSRC)"],
         ensures={
             "always_the_source_of_the_current_code_object": "result[0] is CURSRC",
-            "RI_cached_info_belongs_to_the_recorded_code_id": "self._func_code_info is not None and self._func_code_id is not None and self._func_code_id == info_for_now()",
+            "RI_cached_info_belongs_to_the_recorded_code_object": "self._func_code_info is not None and recorded_is_current(self)",
             "remembered": "same(result, self._func_code_info)",
         },
     ))
@@ -608,6 +651,24 @@ def build():
                 out.append(("%s.%s/forwards-every-keyword" % (cls.name, fn.name), not named,
                             "parameters %r of %s.%s(*%s, **%s) can be hit by a keyword meant for the cached function (e.g. f(self=...)): they must be positional-only"
                             % (named, cls.name, fn.name, a.vararg.arg, a.kwarg.arg)))
+        # ... and the helpers those entry points hand the user's *args / **kwargs to (format_call -> format_signature with the default
+        # verbosity), and Memory.eval
+        fi = SourceModule.get("joblib/func_inspect.py")
+        for modname, mod_, names in (("func_inspect", fi, ("format_signature",)),):
+            for fname in names:
+                fn = mod_.funcs.get(fname)
+                if fn is None:
+                    out.append(("%s.%s/found" % (modname, fname), False, "anchor lost"))
+                    continue
+                a = fn.args
+                if a.vararg is not None and a.kwarg is not None:
+                    named = [x.arg for x in a.args + a.kwonlyargs]
+                    out.append(("%s.%s/forwards-every-keyword" % (modname, fname), not named,
+                                "parameters %r of %s(*%s, **%s) can be hit by a keyword of the cached call (cached(x, func=...) with the default verbosity)" % (named, fname, a.vararg.arg, a.kwarg.arg)))
+        ev = mod.funcs.get("Memory.eval")
+        if ev is not None and ev.args.vararg is not None and ev.args.kwarg is not None:
+            named = [x.arg for x in ev.args.args + ev.args.kwonlyargs]
+            out.append(("Memory.eval/forwards-every-keyword", not named, "parameters %r of Memory.eval(*args, **kwargs) can be hit by a keyword meant for the evaluated function" % (named,)))
         if not out:
             out.append(("wrappers/forwarding-entry-points-found", False, "no forwarding entry point found in joblib/memory.py (anchor lost)"))
         return out
